@@ -193,9 +193,10 @@ func MuxScenarios(thorough bool) []MuxScenario {
 		// caller packets with every value of the header's small fields (scrambling control, transport_error, priority)
 		MuxScenario{Name: "packet-header-values-p2", Period: 2, Setup: setupA,
 			Alpha: []MOp{{K: "pkt", Pkt: "scr1"}, {K: "pkt", Pkt: "scr2"}, {K: "pkt", Pkt: "scr3"}, {K: "pkt", Pkt: "teiprio"}, {K: "pkt", Pkt: "onebyte"}, {K: "pkt", Pkt: "onebytepcr"}, opDataA1, opTables}, Depth: 3, Dedup: true},
-		// every part of the adaptation field extension on its own (piecewise rate without a legal time window, ...)
+		// every part of the adaptation field extension on its own (piecewise rate without a legal time window, ...); variable
+		// and fixed parts in a unit so short that the Muxer has to add its stuffing behind them
 		MuxScenario{Name: "af-extension-parts-p2", Period: 2, Setup: setupA,
-			Alpha: []MOp{{K: "data", PID: 0x100, Len: 250, AF: "extpw"}, {K: "data", PID: 0x100, Len: 10, AF: "extss"}, opDataAltw, {K: "data", PID: 0x100, Len: 400, AF: "ext"}, opDataA1}, Depth: 3, Dedup: true},
+			Alpha: []MOp{{K: "data", PID: 0x100, Len: 250, AF: "extpw"}, {K: "data", PID: 0x100, Len: 10, AF: "extss"}, {K: "data", PID: 0x100, Len: 30, AF: "extss0"}, {K: "data", PID: 0x100, Len: 20, AF: "priv10"}, {K: "data", PID: 0x100, Len: 5, AF: "allfixed"}, opDataAltw, {K: "data", PID: 0x100, Len: 400, AF: "ext"}, opDataA1}, Depth: 3, Dedup: true},
 		// one adaptation field struct edited between calls: fields that fit, that leave no room for the PES header, that
 		// cannot fit a packet at all - whatever a call leaves in the struct's length bookkeeping is what the next call finds
 		MuxScenario{Name: "shared-af-struct-p2", Period: 2, Setup: setupA, ShareAF: true,
